@@ -79,10 +79,14 @@ def generate(rng, tier: str, index: int) -> dict:
         items = [it for it in items if it['gen'] != 'notification'] + [it for it in items if it['gen'] == 'notification'][:1]
         scripts.append(items)
     version = rng.choice([4, 4, 6])
-    return {'micro_seed': rng.randint(1, 1 << 48), 'knobs': knobs(rng, env={'api.version': version}), 'version': version, 'kinds': kinds, 'scripts': scripts, 'gap': rng.choice([0.02, 0.1]), 'split_p': rng.choice([0.0, 0.3]),
+    plan = {'micro_seed': rng.randint(1, 1 << 48), 'knobs': knobs(rng, env={'api.version': version}), 'version': version, 'kinds': kinds, 'scripts': scripts, 'gap': rng.choice([0.02, 0.1]), 'split_p': rng.choice([0.0, 0.3]),
             'consolidate': rng.chance(0.2), 'packets': rng.chance(0.3),
             'pipe': rng.choice([None, None, {'capacity': rng.choice([100, 1000, 4096, 8192]), 'refill_every': rng.choice([0.01, 0.05, 0.3]), 'helper': rng.choice(['hj', 'ht', 'both']),
                                              'crash_at': rng.choice([None, None, 0.3, 0.6, 1.2])}])}  # fmt: skip
+    if plan['pipe'] and plan['pipe']['crash_at'] is None:
+        f = rng.fork('chatter')
+        plan['pipe']['chatter'] = f.choice([None, 0.005, 0.02, 0.1])
+    return plan
 
 
 def hostile(item: dict, limit: int = 250) -> bytes:
@@ -289,6 +293,21 @@ def execute(plan: dict) -> dict:
             w.after(plan['pipe']['refill_every'], refill)
 
         w.after(plan['pipe']['refill_every'], refill)
+        if plan['pipe'].get('chatter') and pressured:
+            # the slow helper also talks: commands answered with `error` while the tail of an event is still waiting for room - a
+            # reply may not overtake it
+            def chatter() -> None:
+                if finished['t'] is not None or w.loop.mono > 30.0:
+                    return
+                for hh in pressured:
+                    if not hh.exited:
+                        probes['helper_commands'] = probes.get('helper_commands', 0) + 1
+                        n = probes['helper_commands']
+                        # answered from the dispatcher at once / from a scheduled callback (`error`: no such route, `done` or `error`: an EOR)
+                        hh.emit([b'frobnicate the pipe\n', b'peer * announce route 300.0.0.0/24 next-hop 10.0.0.9\n', b'peer * announce eor ipv4 unicast\n'][n % 3])
+                w.after(plan['pipe']['chatter'], chatter)
+
+            w.at(0.3, chatter)
         if plan['pipe'].get('crash_at') is not None and pressured:
             # the slow helper dies while exabgp holds the unwritten tail of an event for it, and is respawned under the same
             # name: what the new instance reads must start with a whole record
@@ -502,6 +521,8 @@ def judge(w, plan, kinds, speakers, hj, ht, render_log, planted, violations, pro
                 return
             if ln.startswith(' header 0x') and all(c in '0123456789ABCDEFabcdefx hedrboy' for c in ln):
                 continue  # the raw packet line the version-4 text encoder puts inside an update block
+            if (ln in ('error', 'done') or ln.startswith('error: ')) and (plan.get('pipe') or {}).get('chatter'):
+                continue  # the answer to one of the helper's own commands
             if not any(ln.startswith(f'neighbor {p} ') for p in peers) and ln not in ('shutdown',):
                 violations.append(viol('C13/text-forged-line', f'API v4 text helper: a line that is not an event of a configured neighbor: {ln[:260]!r}', version=4))
                 return
